@@ -3,7 +3,8 @@
 From Coq Require Import String.
 From Coq Require Import List Ascii ZArith Bool.
 From CGV Require Import Base.PyBase Base.PyVal Base.NxGraph Dialect.DialectImpl Reader.ReaderImpl Reader.Grammar
-     Reader.ReaderCheck Reader.Lin Reader.ReaderSim Reader.ReaderMult Gen.ReaderEnumGen Reader.ReaderSmall.
+     Reader.ReaderCheck Reader.Lin Reader.ReaderSim Reader.ReaderMult Reader.ReaderUnit Reader.ReaderUnitLong
+     Gen.ReaderEnumGen Reader.ReaderSmall.
 Import ListNotations.
 Open Scope Z_scope.
 
@@ -55,8 +56,7 @@ Qed.
 (** UNBOUNDED, partial (node multipliers).  For every flat string of the grammar (see C04.v) reading the
     shorthand and reading the string with every node multiplier written out give the SAME result: the same
     graph with the same numbering and iteration orders (or the same error).  [expand_lin l] contains no
-    multiplier.  Missing from the full statement: branch multipliers (only bounded, C05_small, and refuted
-    in the classes below), the symbol after a node multiplier (class nodemult_sym), texts without braces. *)
+    multiplier.  Missing from the full statement: the symbol after a node multiplier (class nodemult_sym), texts without braces. *)
 Theorem C05_nodes_partial : forall fo l, lins_ok fo l = true ->
   read_cgsmiles fo (base_text l) = read_cgsmiles fo (base_text (expand_lin l)).
 Proof. exact reader_nodes_shorthand. Qed.
@@ -74,6 +74,43 @@ Example C05_nodes_nonvacuous :
   /\ exists g, read_cgsmiles fo0 (base_text l) = Ok g /\ length (nodes_data g) = 16%nat.
 Proof. vm_compute. repeat split. eexists. split; reflexivity. Qed.
 
+(** UNBOUNDED, partial (BRANCH multipliers).  A text is a sequence of flat items and UNITS
+    "anchor ( simple chain ) sym? |n sym?" standing on the top-level chain: the multiplied branch is the first
+    branch of its anchor, n >= 2, no ring marker and no nested branch inside the unit, a multiplied node
+    inside the unit is reached by a single bond (Reader/ReaderUnit.v: [segs_ok]).  For every such text the
+    reader model reads the shorthand and the longhand ([segs_long]: every unit written out n times, consecutive
+    anchors joined by the symbol before '|', the symbol after |n leaving the last anchor) as the SAME graph
+    with the SAME numbering; likewise with the node multipliers written out too.  This is the shape of the
+    documented polymer examples, e.g. {[#PMA]([#PEO][#PEO])|3}.
+    Missing from the full statement: units inside other branches, multiplied branches that are not the first
+    branch of their anchor, nested branches / rings inside units, n = 1 (all refuted below or only bounded:
+    C05_small), texts without braces. *)
+Theorem C05_branch_partial : forall fo l, segs_ok fo l = true ->
+  read_cgsmiles fo (segs_text l) = read_cgsmiles fo (base_text (segs_long l)).
+Proof. exact reader_units_shorthand. Qed.
+Theorem C05_branch_partial_expanded : forall fo l, segs_ok fo l = true ->
+  read_cgsmiles fo (segs_text l) = read_cgsmiles fo (base_text (expand_lin (segs_long l))).
+Proof. exact reader_units_fully_expanded. Qed.
+(** non-vacuity, and the link to the AST-level functions on an instance:
+    {[#X][#A]|2=([#B]-[#C]|2)=|3$[#D]}  vs  {[#X][#A]|2=([#B]-[#C]|2)=[#A]=([#B]-[#C]|2)=[#A]=([#B]-[#C]|2)$[#D]} *)
+Example C05_branch_nonvacuous :
+  let u := {| u_name := S "A"; u_mult := Some [2%nat]; u_bond := None;
+              u_body := [{| bn_name := S "B"; bn_mult := None; bn_bond := Some SSingle |};
+                         {| bn_name := S "C"; bn_mult := Some [2%nat]; bn_bond := None |}];
+              u_ms := Some SDouble; u_count := [3%nat]; u_after := Some SQuad |} in
+  let l := [SPlain {| l_open := false; l_name := S "X"; l_mult := None; l_rings := []; l_bond := None; l_close := None |};
+            SUnit u;
+            SPlain {| l_open := false; l_name := S "D"; l_mult := None; l_rings := []; l_bond := None; l_close := None |}] in
+  let a := [nd "X"; Item (S "A") [] (Some [2%nat]) None
+                      [Branch [Item (S "B") [] None (Some SSingle) []; Item (S "C") [] (Some [2%nat]) None []]
+                              (Some (Some SDouble, [3%nat])) (Some SQuad)]; nd "D"] in
+  segs_ok fo0 l = true /\ wf fo0 a = true /\ class_C05 true a = 0%nat
+  /\ segs_text l = print true a
+  /\ base_text (segs_long l) = print true (expand_branches a)
+  /\ base_text (expand_lin (segs_long l)) = print true (expand a)
+  /\ exists g, read_cgsmiles fo0 (segs_text l) = Ok g /\ length (nodes_data g) = 15%nat.
+Proof. vm_compute. repeat split. eexists. split; reflexivity. Qed.
+
 (** BOUNDED: on the complete enumerated list [small_c05] (ASTs with <= 3 nodes and up to two multipliers
     from {2,3} on nodes / {1,2,3} on branches, symbols {none,#}; and <= 4 nodes, multipliers 2 on nodes /
     {2,3} on branches, at most one '='), outside the defect classes, and when no multiplied unit contains a nested
@@ -83,6 +120,8 @@ Proof. exact C05_small_list. Qed.
 Theorem C05_small_not_vacuous : (500 <=? length (filter (fun a => Nat.eqb (class_C05 true a) 0 && negb (nested_any a)) small_c05))%nat = true.
 Proof. exact C05_small_nonvacuous. Qed.
 
+Print Assumptions C05_branch_partial.
+Print Assumptions C05_branch_partial_expanded.
 Print Assumptions C05_nodes_partial.
 Print Assumptions C05_denote_expand.
 Print Assumptions C05_small.
